@@ -54,6 +54,22 @@ def gen_case(ctx: Ctx, rng):
         return None
     nph = rng.choice([0, 1, 2, 2, 3, 3, 4])
     nph = max(0, min(nph, cap - hp))
+    if rng.random() < 0.25:
+        # a beam splitter whose coupling is tiny but non-zero (|u|^2 below the 1e-9 truncation): the
+        # truncation is per output STATE, never per matrix element
+        m = rng.choice([10**5, 3 * 10**4, 2 * 10**5])
+        a, b, cc = m * m - 1, 2 * m, m * m + 1
+        cs = (Fraction(a, cc), Fraction(b, cc)) if rng.random() < 0.5 else (Fraction(b, cc), Fraction(a, cc))
+        n_user = prog[0][2]
+        if n_user >= 2 and prog[0][0] == "new":
+            m1, m2 = rng.sample(range(n_user), 2)
+            pos = rng.randint(1, len(prog))
+            prog = prog[:pos] + [cg.op_bs("c1", m1, m2, cs[0], cs[1], rng.choice(["Rx", "H"]))] + prog[pos:]
+            ctx.count("tiny_coupling_bs")
+            pool = fg.build_impl(prog)
+            c = pool.get("c1")
+            if c is None:
+                return None
     return {"prog": prog, "input": fg.rand_state(rng, c.input_modes, nph)}
 
 
